@@ -1,7 +1,9 @@
 import Yarel.Model.Basic
+import Yarel.Drv.Intern
 
 def main (args : List String) : IO UInt32 := do
   match args with
+  | "intern" :: rest => do Yarel.Drv.Intern.run rest; return 0
   | _ => do
     IO.eprintln "usage: yarel_model <family> [args]"
     return 2
